@@ -12,7 +12,7 @@ ops (parameters = answers of the real code, see harness/c24.cpp):
   sup <global> <hex msg id> <verdicts>       -> <0|1> | <state>      verdicts: one of N C M per entry, or -
   supx <global> <hex msg id> <verdicts>      -> <0|1> | <state>
   mark <n> (<hex file> <line>)*n             -> - | <state>
-  recv <globsOk> <suppr>                     -> - | <state>
+  recv <globsOk> <suppr>                     -> - | <state>       (<suppr> = the worker's entry; the parent sees `wire` of it)
   thread                                     -> - | <state>
   wire                                       -> <suppr>* | <state>   (what a worker with this list sends)
   ul <pm bits> / ug / ui                     -> <suppr>* | <state>
@@ -104,7 +104,7 @@ def step (st : State) (line : String) : State × String :=
     | none => (st, "bad-op")
   | ["recv", g, t] =>
     match parseSuppr t with
-    | some s => out "-" (recv (g == "1") st s)
+    | some s => out "-" (recv (g == "1") st (wire s))     -- the harness sends the worker's entry through the real pipe format
     | none => (st, "bad-op")
   | ["thread"] => out "-" (threadPropagate st)
   | ["wire"] => out (listStr (workerReport st)) st
@@ -121,7 +121,7 @@ def step (st : State) (line : String) : State × String :=
         let c := recopy st
         let files := List.range k
         let r := report files (fun i => bitsAt (pms.getD i "-") c) (inl == "1") (bitsAt filt c) st
-        out (if r.isEmpty then "-" else " ".intercalate (r.map msgStr)) st
+        out (if r.isEmpty then "0 -" else "1 " ++ " ".intercalate (r.map msgStr)) st
       else (st, "bad-op")
     | none => (st, "bad-op")
   | _ => (st, "bad-op")
